@@ -470,12 +470,7 @@ impl<T: Clone + Into<Obj> + Display + Debug + 'static + MaybeSync + MaybeSend> S
         Box::new(self.clone())
     }
     fn len(&self) -> Option<usize> {
-        None
-    }
-    fn force(&self) -> NRes<Vec<Obj>> {
-        Err(NErr::value_error(
-            "Cannot force repeat because it's infinite".to_string(),
-        ))
+        Some(self.0.len().saturating_sub(self.1))
     }
     // fn pythonic_index_isize...
     // fn pythonic_slice...
